@@ -455,9 +455,9 @@ func run(r *core.R) {
 		h.ct.batch = r.Src.Range(1, 8, "iter_batch")
 	}
 	r.Cfg("iter_batch", h.ct.batch)
-	nInit := r.Src.Range(1, 10, "n_init")
+	nInit := r.Src.Range(1, 16, "n_init")
 	if thorough {
-		nInit = r.Src.Range(1, 24, "n_init")
+		nInit = r.Src.Range(1, 32, "n_init")
 	}
 	h.maxConns = nInit + r.Src.Range(0, 8, "n_extra")
 	big := r.Src.Chance(12, "big")
@@ -471,7 +471,7 @@ func run(r *core.R) {
 	}
 	r.Cfg("n_init", nInit)
 	r.Cfg("max_conns", h.maxConns)
-	nScans := r.Src.Range(1, 5, "n_scans")
+	nScans := r.Src.Range(1, 6, "n_scans")
 	r.Cfg("n_scans", nScans)
 	h.nat = &natModel{nSvc: r.Src.Range(1, 3, "n_svc"), nBackends: r.Src.Range(1, 4, "n_backends")}
 	for s := 0; s < h.nat.nSvc; s++ {
@@ -484,7 +484,7 @@ func run(r *core.R) {
 	}
 	// how busy the rest of the world is at a yield point: number of events
 	busy := r.Src.Intn(3, "busy")
-	h.evCount = [][]int{{900, 85, 12, 3}, {750, 200, 40, 10}, {550, 330, 90, 30}}[busy]
+	h.evCount = [][]int{{900, 85, 12, 3}, {700, 240, 45, 15}, {500, 360, 100, 40}}[busy]
 	r.Cfg("busy", busy)
 	h.evKinds = make([]int, evN)
 	h.evKinds[evPacket] = 60
@@ -574,7 +574,7 @@ func (h *H) lsOf(k string) int64 {
 // between: what the world does between two scans.
 func (h *H) between(sc int) {
 	r := h.r
-	n := r.Src.Range(0, 6, "between_n")
+	n := r.Src.Range(0, 8, "between_n")
 	for i := 0; i < n; i++ {
 		switch r.Src.Weighted([]int{30, 25, 10, 10, 5, 4}, "between_op") {
 		case 0:
